@@ -10,6 +10,9 @@ non-ASCII rows of its table are an assumption probed by the correspondence); `Is
 statement to ASCII where the documentation ("lowercase") is unambiguous. `build defs = some ii`
 ranges over every `IndexedInstruments` the builder model can produce (C11 `build_total`: it always
 produces one), `buildS` is the same builder on string-named definitions through the name code.
+The functions `spec…` (`specExchangeTable`, `specAssetTable`, `specAssetIndex`, …) are the
+specification's own reading of the tables and of the lookup values, written in `Model/Names.lean`
+without the builder; section G ties them to it.
 -/
 namespace BarterModel.Props.C11N
 open BarterModel.Names BarterModel.Index
@@ -49,7 +52,8 @@ theorem internal_name_eq_iff_caseEq (s t : Str) (hs : IsAscii s) (ht : IsAscii t
   · rw [← this]; simp [AssetNameInternal.new]
   · rw [← this]; simp [InstrumentNameInternal.new]
 
-/-- Exchange names are kept verbatim: case matters. -/
+/-- Exchange names are kept verbatim: case matters. (Definitional: restates the constructors;
+bookkeeping, not listed as a result.) -/
 theorem exchange_names_verbatim (s t : Str) :
     (AssetNameExchange.new s).name = s ∧ (InstrumentNameExchange.new s).name = s ∧
     (AssetNameExchange.new s = AssetNameExchange.new t ↔ s = t) ∧
@@ -57,7 +61,8 @@ theorem exchange_names_verbatim (s t : Str) :
   simp [AssetNameExchange.new, InstrumentNameExchange.new]
 
 /-- `Display` and `Serialize` show the name; deserialising what was serialised gives the value back
-exactly for values that came out of a constructor … -/
+exactly for values that came out of a constructor … (the first conjunct and the two exchange-name
+conjuncts are definitional; the three internal-name conjuncts need idempotence) -/
 theorem serde_display_round_trip (s : Str) :
     (AssetNameInternal.new s).display = (AssetNameInternal.new s).name ∧
     AssetNameInternal.de (AssetNameInternal.new s).ser = AssetNameInternal.new s ∧
@@ -77,7 +82,8 @@ theorem serde_round_trip_iff (x : InstrumentNameInternal) :
   simp [InstrumentNameInternal.de, InstrumentNameInternal.ser, InstrumentNameInternal.new,
     nameNew_eq_lowerStr]
 
-/-- `Asset::new_from_exchange` = `Asset::new` with the exchange name in both places. -/
+/-- `Asset::new_from_exchange` = `Asset::new` with the exchange name in both places. (Definitional
+up to `internal_name_is_lowercased`; bookkeeping.) -/
 theorem asset_new_from_exchange (e : Str) :
     Asset.newFromExchange e = Asset.new e e ∧ (Asset.newFromExchange e).nameInternal.name = lowerStr e ∧
       (Asset.newFromExchange e).nameExchange.name = e :=
@@ -121,8 +127,8 @@ theorem as_str_eq_spec (e : ExchangeId) : e.asStr = specExchangeName e := by
 theorem ser_as_str_spec_agree (e : ExchangeId) :
     e.ser = e.asStr ∧ e.asStr = specExchangeName e := ⟨ser_eq_as_str e, as_str_eq_spec e⟩
 
-/-- `Display` is the variant identifier: never equal to `as_str`; lower-cased it is `as_str` with
-the underscores removed. -/
+/-- `Display` is the variant identifier (first conjunct: definitional): never equal to `as_str`;
+lower-cased it is `as_str` with the underscores removed. -/
 theorem display_is_not_as_str (e : ExchangeId) :
     e.display = e.variantName ∧ e.display ≠ e.asStr ∧
       lowerStr e.display = e.asStr.filter (· != '_') := by
@@ -219,29 +225,51 @@ theorem new_from_exchange_underlying_eq (e : ExchangeId) (b q : Str) :
   simp
 
 /-- The two "from exchange" constructors name the same instrument differently exactly for the
-exchanges whose `as_str` contains an underscore (16 of the 42). -/
-theorem underlying_agrees_iff (e : ExchangeId) :
-    (∀ b q : Str, InstrumentNameInternal.newFromExchangeUnderlying e b q =
+exchanges whose `as_str` contains an underscore — for EVERY base and quote (pointwise form). -/
+theorem underlying_agrees_pointwise (e : ExchangeId) (b q : Str) :
+    (InstrumentNameInternal.newFromExchangeUnderlying e b q =
         InstrumentNameInternal.newFromExchange e (b ++ '_' :: q)) ↔ '_' ∉ e.asStr := by
   have key : ∀ e ∈ ExchangeId.all, (lowerStr e.variantName = e.asStr ↔ '_' ∉ e.asStr) := by
     decide +kernel
   rw [← key e (mem_all e)]
   have ext : ∀ x y : InstrumentNameInternal, x = y ↔ x.name = y.name := by
     intro x y; cases x; cases y; simp
-  have hname : ∀ b q : Str, (InstrumentNameInternal.newFromExchangeUnderlying e b q =
-      InstrumentNameInternal.newFromExchange e (b ++ '_' :: q)) ↔
-      lowerStr e.variantName ++ '-' :: lowerStr b ++ '_' :: lowerStr q =
-        e.asStr ++ '-' :: lowerStr b ++ '_' :: lowerStr q := by
-    intro b q
-    rw [ext, new_from_exchange_underlying_eq, new_from_exchange_eq, lowerStr_append, lowerStr_cons,
-      lowcs_underscore]
-    simp
+  rw [ext, new_from_exchange_underlying_eq, new_from_exchange_eq, lowerStr_append, lowerStr_cons,
+    lowcs_underscore]
   constructor
   · intro h
-    have := (hname [] []).mp (h [] [])
-    exact List.append_cancel_right (List.append_cancel_right this)
-  · intro h b q
-    rw [hname, h]
+    have h' : lowerStr e.variantName ++ ('-' :: (lowerStr b ++ '_' :: lowerStr q)) =
+        e.asStr ++ ('-' :: (lowerStr b ++ '_' :: lowerStr q)) := by simpa using h
+    exact List.append_cancel_right h'
+  · intro h; rw [h]; simp
+
+/-- Corollary (the form of the first review): agreement for all names iff no underscore. -/
+theorem underlying_agrees_iff (e : ExchangeId) :
+    (∀ b q : Str, InstrumentNameInternal.newFromExchangeUnderlying e b q =
+        InstrumentNameInternal.newFromExchange e (b ++ '_' :: q)) ↔ '_' ∉ e.asStr :=
+  ⟨fun h => (underlying_agrees_pointwise e [] []).mp (h [] []),
+   fun h b q => (underlying_agrees_pointwise e b q).mpr h⟩
+
+/-- The counts quoted in the texts: 16 of the 42 variants have an underscore in `as_str` (the two
+constructors disagree there), 26 have none. -/
+theorem underlying_agreement_counts :
+    (ExchangeId.all.filter (fun e => decide ('_' ∈ e.asStr))).length = 16 ∧
+    (ExchangeId.all.filter (fun e => decide ('_' ∉ e.asStr))).length = 26 := by decide +kernel
+
+/-- `new_from_exchange_underlying` does determine the EXCHANGE (the lower-cased variant identifiers
+are pairwise different and contain no dash), though not (base, quote): `underlying_collision`. -/
+theorem underlying_determines_exchange (e₁ e₂ : ExchangeId) (b₁ q₁ b₂ q₂ : Str)
+    (h : InstrumentNameInternal.newFromExchangeUnderlying e₁ b₁ q₁ =
+         InstrumentNameInternal.newFromExchangeUnderlying e₂ b₂ q₂) : e₁ = e₂ := by
+  have hinj : ∀ a ∈ ExchangeId.all, ∀ b ∈ ExchangeId.all,
+      lowerStr a.variantName = lowerStr b.variantName → a = b := by decide +kernel
+  have hnd : ∀ a ∈ ExchangeId.all, '-' ∉ lowerStr a.variantName := by decide +kernel
+  have h' := congrArg InstrumentNameInternal.name h
+  rw [new_from_exchange_underlying_eq, new_from_exchange_underlying_eq] at h'
+  have h'' : lowerStr e₁.variantName ++ '-' :: (lowerStr b₁ ++ '_' :: lowerStr q₁) =
+      lowerStr e₂.variantName ++ '-' :: (lowerStr b₂ ++ '_' :: lowerStr q₂) := by simpa using h'
+  have := append_dash_inj _ _ _ _ (hnd e₁ (mem_all e₁)) (hnd e₂ (mem_all e₂)) h''
+  exact hinj e₁ (mem_all e₁) e₂ (mem_all e₂) this.1
 
 /-- Concrete instance (the system configuration uses `new_from_exchange_underlying`, the test
 utilities and doc examples `new_from_exchange`). -/
@@ -276,7 +304,16 @@ theorem name_code_faithful (s t : Str) (hs : s.length ≤ L) (ht : t.length ≤ 
     (code s = code t ↔ s = t) ∧ (code s < code t ↔ s < t) ∧ decode (code s) = s :=
   ⟨⟨code_inj s t hs ht, fun h => h ▸ rfl⟩, code_lt_iff s t hs ht, decode_code s hs⟩
 
-/-! ## E. the lookup API, for every index the builder can produce -/
+/-- The length bound is necessary: two 49-character names share a code. -/
+theorem name_code_bound_necessary :
+    code (List.replicate 48 'a' ++ ['b']) = code (List.replicate 48 'a' ++ ['c']) ∧
+      List.replicate 48 'a' ++ ['b'] ≠ List.replicate 48 'a' ++ ['c'] := by decide +kernel
+
+/-! ## E. the lookup API, for every index the builder can produce
+
+`build defs = some ii` ranges over the values `IndexedInstruments::new` / the builder / `from_iter`
+produce. The type also derives `Deserialize`: a value read from arbitrary JSON need not have
+key = position, ascending order or distinct entries, and is outside this section. -/
 
 theorem find_exchange_index_ok_iff {defs : List Def} {ii : Indexed} (h : build defs = some ii)
     (e i : Nat) : findExchangeIndex ii e = .ok i ↔ (exchanges ii)[i]? = some ⟨i, e⟩ := by
@@ -513,10 +550,150 @@ theorem find_instrument_index_least {defs : List Def} {ii : Indexed} (h : build 
     rw [hd] at hk; cases hk
     exact List.le_refl _
 
+/-- `assets()` is strictly ascending in (exchange, internal name, exchange name): the derived order
+of `ExchangeAsset<Asset>`. Together with `accessor_tables` (its members) this determines the table. -/
+theorem assets_sorted {defs : List Def} {ii : Indexed} (h : build defs = some ii) :
+    ((assets ii).map (·.value)).Pairwise (fun a b => a.exchange < b.exchange ∨
+      (a.exchange = b.exchange ∧ (a.asset.nameInternal < b.asset.nameInternal ∨
+        (a.asset.nameInternal = b.asset.nameInternal ∧ a.asset.nameExchange < b.asset.nameExchange)))) := by
+  obtain ⟨_, h2, _⟩ := build_some defs ii h
+  rw [assets, h2, map_value_enumerate]
+  refine (strict_sortDedup ExchangeAsset.sortKey ExchangeAsset.sortKey_inj _).imp ?_
+  intro a b ⟨hle, hne⟩
+  have h1 : ¬ (ExchangeAsset.sortKey b < ExchangeAsset.sortKey a) :=
+    List.not_lt.mpr (of_decide_eq_true hle)
+  obtain ⟨ae, ⟨ai, ax⟩⟩ := a
+  obtain ⟨be, ⟨bi, bx⟩⟩ := b
+  simp only [ExchangeAsset.sortKey, lt3] at h1
+  simp only [ne_eq, ExchangeAsset.mk.injEq, Index.Asset.mk.injEq] at hne
+  dsimp only
+  omega
+
+/-- `instruments()` is ascending in (exchange, internal name) — the first two members of the derived
+order of `Instrument`, the pair `find_instrument_index` is keyed by. -/
+theorem instruments_sorted {defs : List Def} {ii : Indexed} (h : build defs = some ii) :
+    ((instruments ii).map (·.value)).Pairwise (fun a b => a.exchange.value < b.exchange.value ∨
+      (a.exchange.value = b.exchange.value ∧ a.nameInternal ≤ b.nameInternal)) := by
+  have hs : (sortedDefs defs).Pairwise (fun a b => a.exchange < b.exchange ∨
+      (a.exchange = b.exchange ∧ a.nameInternal ≤ b.nameInternal)) :=
+    (strict_sortDedup Instrument.sortKey Instrument.sortKey_inj defs).imp
+      (fun {a b} hab => le_cons2 (a := a.exchange) (b := a.nameInternal) (a' := b.exchange)
+        (b' := b.nameInternal) (of_decide_eq_true hab.1))
+  rw [List.pairwise_iff_getElem]
+  intro i j hi hj hij
+  simp only [List.length_map] at hi hj
+  simp only [List.getElem_map]
+  obtain ⟨di, hdi, _, hie, _, hin, _⟩ :=
+    build_instrument_at defs ii h i _ (List.getElem?_eq_getElem hi)
+  obtain ⟨dj, hdj, _, hje, _, hjn, _⟩ :=
+    build_instrument_at defs ii h j _ (List.getElem?_eq_getElem hj)
+  obtain ⟨hil, hdi'⟩ := List.getElem?_eq_some_iff.mp hdi
+  obtain ⟨hjl, hdj'⟩ := List.getElem?_eq_some_iff.mp hdj
+  have := (List.pairwise_iff_getElem.mp hs) i j hil hjl hij
+  rw [hdi', hdj'] at this
+  simp only [instruments] at hie hin hje hjn ⊢
+  rw [hie, hin, hje, hjn]
+  exact this
+
+/-- `find_asset_index` as a function of the input alone: the number of distinct (exchange, asset)
+pairs of the definitions whose (exchange, internal name) comes before the queried pair. -/
+theorem find_asset_index_is_rank {defs : List Def} {ii : Indexed} (h : build defs = some ii)
+    (e n i : Nat) (hf : findAssetIndex ii e n = .ok i) :
+    i = ((specAssets defs).filter
+      (fun x => keyLt x.exchange x.asset.nameInternal e n)).length := by
+  obtain ⟨⟨x, hx, hxe, hxn⟩, hfirst⟩ := (find_asset_index_ok_iff h e n i).mp hf
+  obtain ⟨_, h2, _⟩ := build_some defs ii h
+  have hs := strict_sortDedup ExchangeAsset.sortKey ExchangeAsset.sortKey_inj (defs.flatMap defAssets)
+  have hs' : (sortedAssets defs).Pairwise (fun a b => a.exchange < b.exchange ∨
+      (a.exchange = b.exchange ∧ a.asset.nameInternal ≤ b.asset.nameInternal)) :=
+    hs.imp (fun hab => le_cons2 (of_decide_eq_true hab.1))
+  have hxi : (sortedAssets defs)[i]? = some x := by
+    rw [assets, h2] at hx; exact ((getElem?_enumerate_eq _ _ _).mp hx).2
+  have hcount := rank_of_first (fun a : ExchangeAsset => a.exchange) (fun a => a.asset.nameInternal)
+    (sortedAssets defs) hs' e n i x hxi hxe hxn (by
+      intro j hj y hy
+      have := hfirst j hj ⟨j, y⟩ (by
+        rw [assets, h2]; exact (getElem?_enumerate_eq _ _ _).mpr ⟨rfl, hy⟩)
+      simpa using this)
+  rw [← hcount]
+  exact ((perm_sortDedup_specDistinct _ ExchangeAsset.sortKey_inj _).filter _).length_eq
+
+/-- `find_instrument_index` as a function of the input alone: the number of distinct definitions
+whose (exchange, internal name) comes before the queried pair — whatever else they differ in. -/
+theorem find_instrument_index_is_rank {defs : List Def} {ii : Indexed} (h : build defs = some ii)
+    (e n i : Nat) (hf : findInstrumentIndex ii e n = .ok i) :
+    i = ((specInstruments defs).filter (fun d => keyLt d.exchange d.nameInternal e n)).length := by
+  obtain ⟨⟨x, hx, hxe, hxn⟩, hfirst⟩ := (find_instrument_index_ok_iff h e n i).mp hf
+  obtain ⟨d, hd, _, he, _, hn, _⟩ := build_instrument_at defs ii h i _ hx
+  obtain ⟨_, _, _, hget⟩ := build_some defs ii h
+  have hs := strict_sortDedup Instrument.sortKey Instrument.sortKey_inj defs
+  have hs' : (sortedDefs defs).Pairwise (fun a b => a.exchange < b.exchange ∨
+      (a.exchange = b.exchange ∧ a.nameInternal ≤ b.nameInternal)) :=
+    hs.imp (fun {a b} hab => le_cons2 (a := a.exchange) (b := a.nameInternal) (a' := b.exchange)
+      (b' := b.nameInternal) (of_decide_eq_true hab.1))
+  have hcount := rank_of_first (fun a : Def => a.exchange) (fun a => a.nameInternal)
+    (sortedDefs defs) hs' e n i d hd (he ▸ hxe) (hn ▸ hxn) (by
+      intro j hj y hy
+      obtain ⟨z, hz, hze, _, hzn, _⟩ := hget j y hy
+      have := hfirst j hj _ hz
+      simp only at this
+      rw [hze, hzn] at this
+      exact this)
+  rw [← hcount]
+  exact ((perm_sortDedup_specDistinct _ Instrument.sortKey_inj _).filter _).length_eq
+
+/-- What the entry at the answered index IS (the part `find_instrument_index_least` leaves open): it
+carries the names of the least definition `d` under the queried key, its exchange reference is the
+position of `d`'s exchange in `exchanges()`, and — when an internal asset name names one asset per
+exchange (`WFAssets`; witness of the excluded point: C11 `asset_two_exchange_names_witness`) —
+reading it back through the tables by position gives `d` itself: kind, spec and every asset. -/
+theorem find_instrument_index_entry {defs : List Def} {ii : Indexed} (h : build defs = some ii)
+    (e n i : Nat) (hf : findInstrumentIndex ii e n = .ok i) :
+    ∃ d ∈ defs, d.exchange = e ∧ d.nameInternal = n ∧
+      (∀ d' ∈ defs, d'.exchange = e → d'.nameInternal = n →
+        Instrument.sortKey d ≤ Instrument.sortKey d') ∧
+      ∃ x, (instruments ii)[i]? = some ⟨i, x⟩ ∧ x.exchange.value = d.exchange ∧
+        x.nameInternal = d.nameInternal ∧ x.nameExchange = d.nameExchange ∧
+        (exchanges ii)[x.exchange.key]? = some ⟨x.exchange.key, d.exchange⟩ ∧
+        (WFAssets defs → resolve ii x = some d) := by
+  obtain ⟨d, hdm, hde, hdn, ⟨x, hx, hxne⟩, hleast⟩ := find_instrument_index_least h e n i hf
+  obtain ⟨d0, hd0, _, he0, hk0, hn0, hne0, hres⟩ := build_instrument_at defs ii h i _ hx
+  have hd0m : d0 ∈ defs := (mem_sortedDefs _ _).mp (List.mem_iff_getElem?.mpr ⟨_, hd0⟩)
+  obtain ⟨⟨x', hx', hxe, hxn⟩, _⟩ := (find_instrument_index_ok_iff h e n i).mp hf
+  rw [hx] at hx'; cases hx'
+  simp only at he0 hk0 hn0 hne0 hres
+  have h1 := build_some defs ii h
+  refine ⟨d0, hd0m, he0 ▸ hxe, hn0 ▸ hxn, ?_, x, hx, he0, hn0, hne0, ?_, hres⟩
+  · intro d' hd' he' hn'
+    have hle := hleast d0 hd0m (he0 ▸ hxe) (hn0 ▸ hxn)
+    have hle0 : Instrument.sortKey d0 ≤ Instrument.sortKey d := by
+      -- `d0` sits at position `i`, `d` somewhere in the sorted table at or after the first match
+      obtain ⟨k, hk⟩ := List.mem_iff_getElem?.mp ((mem_sortedDefs defs d).mpr hdm)
+      obtain ⟨_, _, _, hget⟩ := h1
+      obtain ⟨y, hy, hye, _, hyn, _⟩ := hget k d hk
+      obtain ⟨_, hfirst⟩ := (find_instrument_index_ok_iff h e n i).mp hf
+      have hik : i ≤ k := by
+        rcases Nat.lt_or_ge k i with hlt | hge
+        · exact absurd ⟨hye.trans hde, hyn.trans hdn⟩ (hfirst k hlt _ hy)
+        · exact hge
+      rcases Nat.lt_or_eq_of_le hik with hlt | heq
+      · have hs := strict_sortDedup Instrument.sortKey Instrument.sortKey_inj defs
+        obtain ⟨hil, hdi⟩ := List.getElem?_eq_some_iff.mp hd0
+        obtain ⟨hkl, hdk⟩ := List.getElem?_eq_some_iff.mp hk
+        have := (List.pairwise_iff_getElem.mp hs) i k hil hkl hlt
+        rw [hdi, hdk] at this
+        exact of_decide_eq_true this.1
+      · subst heq
+        rw [hd0] at hk; cases hk
+        exact List.le_refl _
+    exact List.le_trans hle0 (hleast d' hd' he' hn')
+  · rw [exchanges, h1.1, getElem?_enumerate_eq]
+    exact ⟨rfl, hk0⟩
+
 /-! ## F. `Instrument` constructors, key mapping, kind accessors -/
 
 /-- `Instrument::new` normalises exactly the internal name; `Instrument::spot` is `new` with the
-underlying quote as quote asset and the spot kind. -/
+underlying quote as quote asset and the spot kind. (Definitional - nine `rfl`; bookkeeping.) -/
 theorem instrument_new_fields {E A : Type} (e : E) (ni ne : Str) (b q : A) (qa : Nat) (k : Kind A)
     (sp : Option (Spec A)) :
     let i := Names.Instrument.new e ni ne b q qa k sp
@@ -525,7 +702,8 @@ theorem instrument_new_fields {E A : Type} (e : E) (ni ne : Str) (b q : A) (qa :
       Names.Instrument.spot e ni ne b q sp = Names.Instrument.new e ni ne b q 1 .spot sp :=
   ⟨rfl, rfl, rfl, rfl, rfl, rfl, rfl, rfl, rfl⟩
 
-/-- `map_exchange_key` replaces the exchange key and nothing else; mapping twice = mapping once. -/
+/-- `map_exchange_key` replaces the exchange key and nothing else; mapping twice = mapping once.
+(Definitional; bookkeeping.) -/
 theorem map_exchange_key_laws {E E' E'' A : Type} (i : Names.Instrument E A) (e' : E') (e'' : E'') :
     (i.mapExchangeKey e').exchange = e' ∧ (i.mapExchangeKey e').assetRefs = i.assetRefs ∧
       (i.mapExchangeKey e').nameInternal = i.nameInternal ∧
@@ -545,6 +723,36 @@ theorem map_asset_key_ok_iff {ε E A B : Type} (f : A → Except ε B) (i : Name
   rw [except_cases, ← firstError_none_iff]
   simp only [mapAssetKey_error_iff]
   cases firstError f i.assetRefs <;> simp
+
+/-- The success VALUE, for a general lookup: when the lookup answers every reference `a` with
+`g a`, the result is the instrument with `g` applied to base, quote, settlement asset and
+quantity-unit asset, and nothing else changed. -/
+theorem map_asset_key_ok_value {ε E A B : Type} (f : A → Except ε B) (g : A → B)
+    (i : Names.Instrument E A) (h : ∀ a ∈ i.assetRefs, f a = .ok (g a)) :
+    i.mapAssetKeyWithLookup f = .ok
+      { exchange := i.exchange, nameInternal := i.nameInternal, nameExchange := i.nameExchange,
+        base := g i.base, quote := g i.quote, quoteAsset := i.quoteAsset,
+        kind := kindMap g i.kind, spec := specMap g i.spec } := by
+  obtain ⟨e, ni, ne, b, q, qa, k, sp⟩ := i
+  simp only [Names.Instrument.assetRefs, List.mem_append, List.mem_cons, List.not_mem_nil, or_false,
+    Option.mem_toList] at h
+  have hb := h b (Or.inl (Or.inl (Or.inl rfl)))
+  have hq := h q (Or.inl (Or.inl (Or.inr rfl)))
+  have hk : kindMapE f k = .ok (kindMap g k) := by
+    cases k <;> simp only [kindMapE, kindMap]
+    all_goals (rw [h _ (Or.inl (Or.inr rfl))]; rfl)
+  have hs : specMapE f sp = .ok (specMap g sp) := by
+    cases sp with
+    | none => rfl
+    | some s =>
+      obtain ⟨pm, tk, u, qm, qi, nm⟩ := s
+      cases u with
+      | asset a =>
+        have := h a (Or.inr rfl)
+        simp only [specMapE, specMap, this]; rfl
+      | contract => rfl
+      | quote => rfl
+  simp only [Names.Instrument.mapAssetKeyWithLookup, hb, hq, hk, hs]
 
 /-- The C11 builder model uses the `Option` form of this function (an `Err` is a panic there): it is
 this function with the error forgotten. -/
@@ -573,7 +781,8 @@ theorem market_data_of_instrument {E : Type} (i : Names.Instrument E Names.Asset
     simp [MarketDataInstrument.ofInstrument, MDKind.ofKind, eqMarketDataKind, h, Dec.toRat]
   grind
 
-/-- `MarketDataInstrument::new` lower-cases both names; its `Display` is `base_quote_kind`. -/
+/-- `MarketDataInstrument::new` lower-cases both names; its `Display` is `base_quote_kind`.
+(Definitional up to `internal_name_is_lowercased`; bookkeeping.) -/
 theorem market_data_new (b q : Str) (k : MDKind) :
     (MarketDataInstrument.new b q k).base.name = lowerStr b ∧
     (MarketDataInstrument.new b q k).quote.name = lowerStr q ∧
@@ -674,14 +883,22 @@ theorem missing_instrument_reports_asset_error {defs : List Def} {ii : Indexed}
   subst this
   exact ⟨rfl, by decide⟩
 
-/-- Lookups by name ignore the case of the (ASCII) name handed to the constructor. -/
+/-- Lookups by name depend on the name handed to the constructor only through its lower-casing
+(no hypothesis on the index: a congruence on the constructor). -/
+theorem lookup_ignores_case' (ii : Indexed) (e : ExchangeId) (s t : Str)
+    (h : lowerStr s = lowerStr t) :
+    findAssetIndexS ii e (.new s) = findAssetIndexS ii e (.new t) ∧
+    findInstrumentIndexS ii e (.new s) = findInstrumentIndexS ii e (.new t) := by
+  simp [AssetNameInternal.new, InstrumentNameInternal.new, nameNew_eq_lowerStr, h]
+
+/-- Corollary in the documented vocabulary: lookups by name ignore the case of the (ASCII) name. -/
 theorem lookup_ignores_case (ii : Indexed) (e : ExchangeId) (s t : Str) (hs : IsAscii s)
     (ht : IsAscii t) (hc : caseEq s t = true) :
     findAssetIndexS ii e (.new s) = findAssetIndexS ii e (.new t) ∧
     findInstrumentIndexS ii e (.new s) = findInstrumentIndexS ii e (.new t) := by
-  have ⟨h1, h2⟩ := internal_name_eq_iff_caseEq s t hs ht
-  rw [h1.mpr hc, h2.mpr hc]
-  exact ⟨rfl, rfl⟩
+  apply lookup_ignores_case'
+  rw [lowerStr_ascii s hs, lowerStr_ascii t ht]
+  exact (caseEq_iff s t).mp hc
 
 /-- Positional lookups: index `i` is valid exactly below the table length; an out-of-range index
 gives the error variant of its own kind. -/
@@ -693,6 +910,130 @@ theorem positional_lookups {defs : List Def} {ii : Indexed} (h : build defs = so
   · rw [except_cases]; simp only [find_exchange_error_iff h]; simp
   · rw [except_cases]; simp only [find_asset_error_iff h]; simp
   · rw [except_cases]; simp only [find_instrument_error_iff h]; simp
+
+/-! ### the tables and the lookup values as functions of the definitions (what the spec driver prints) -/
+
+/-- `exchanges()` = the variants of the enum that occur in the definitions, in declaration order. -/
+theorem exchange_table_is_spec {defs : List SDef} {ii : Indexed} (h : buildS defs = some ii) :
+    (exchanges ii).map (·.value) = (specExchangeTable defs).map ExchangeId.toNat := by
+  obtain ⟨h1, _⟩ := build_some _ ii h
+  rw [exchanges, h1, map_value_enumerate]
+  apply strict_ext (leKey exchangeKey) (leKey_antisymm exchangeKey exchangeKey_inj)
+  · exact strict_sortDedup exchangeKey exchangeKey_inj _
+  · unfold Strict specExchangeTable
+    rw [List.pairwise_map]
+    exact all_toNat_strict.filter _
+  · intro x
+    rw [mem_sortedExchanges]
+    simp only [List.mem_map, specExchangeTable, List.mem_filter, specHasExchange, List.any_eq_true,
+      beq_iff_eq]
+    constructor
+    · rintro ⟨_, ⟨d, hd, rfl⟩, rfl⟩
+      exact ⟨d.exchange, ⟨mem_all _, d, hd, rfl⟩, rfl⟩
+    · rintro ⟨e, ⟨_, d, hd, rfl⟩, rfl⟩
+      exact ⟨toDef d, ⟨d, hd, rfl⟩, rfl⟩
+
+/-- `assets()` = the distinct (exchange, asset) pairs of the definitions inserted one by one into a
+list ascending in (exchange, internal name, exchange name) — the specification's own "sorted +
+deduped", written without the builder — seen through the name code. -/
+theorem asset_table_is_spec {defs : List SDef} {ii : Indexed} (h : buildS defs = some ii)
+    (hshort : ∀ d ∈ defs, d.Short) :
+    (assets ii).map (·.value) = (specAssetTable defs).map eraseEntry := by
+  obtain ⟨_, h2, _⟩ := build_some _ ii h
+  have hsh : ∀ x ∈ specAssetEntries defs,
+      x.2.nameInternal.name.length ≤ L ∧ x.2.nameExchange.name.length ≤ L := by
+    intro x hx
+    obtain ⟨d, hd, _, ha⟩ := (mem_specAssetEntries defs x).mp hx
+    exact (hshort d hd).2.2 x.2 ha
+  rw [assets, h2, map_value_enumerate, sortedAssets, flatMap_defAssets_toDef]
+  exact (specSortDistinct_map_eq specAssetLt eraseEntry ExchangeAsset.sortKey
+    ExchangeAsset.sortKey_inj _
+    (fun a ha b hb => specAssetLt_key a b (hsh a ha) (hsh b hb))).symm
+
+/-- the `ExchangeIndex` `find_exchange_index` answers, as a function of the definitions -/
+theorem lookup_exchange_index_value {defs : List SDef} {ii : Indexed} (h : buildS defs = some ii)
+    (e : ExchangeId) (i : Nat) (hf : findExchangeIndex ii e.toNat = .ok i) :
+    i = specExchangeIndex defs e := by
+  have hi := (find_exchange_index_ok_iff h e.toNat i).mp hf
+  have hv : ((exchanges ii).map (·.value))[i]? = some e.toNat := by
+    rw [List.getElem?_map, hi]; rfl
+  rw [exchange_table_is_spec h, List.getElem?_map] at hv
+  obtain ⟨e', he', hee⟩ := Option.map_eq_some_iff.mp hv
+  have := toNat_inj hee
+  subst this
+  obtain ⟨hil, hget⟩ := List.getElem?_eq_some_iff.mp he'
+  have hnd : (specExchangeTable defs).Nodup := exchange_all_length.2.filter _
+  unfold specExchangeIndex
+  rw [← hget, hnd.idxOf_getElem]
+
+/-- the `AssetIndex` `find_asset_index` answers, as a function of the definitions: the number of
+distinct (exchange, asset) pairs mentioned whose (exchange, internal name) comes before the query —
+exchanges in declaration order, names in Rust's string order. -/
+theorem lookup_asset_index_value {defs : List SDef} {ii : Indexed} (h : buildS defs = some ii)
+    (hshort : ∀ d ∈ defs, d.Short) (e : ExchangeId) (n : AssetNameInternal) (hn : n.name.length ≤ L)
+    (i : Nat) (hf : findAssetIndexS ii e n = .ok i) : i = specAssetIndex defs e n := by
+  have hrank := find_asset_index_is_rank h _ _ i hf
+  rw [hrank]
+  unfold specAssets specAssetIndex
+  rw [flatMap_defAssets_toDef]
+  have hsh : ∀ x ∈ specAssetEntries defs,
+      x.2.nameInternal.name.length ≤ L ∧ x.2.nameExchange.name.length ≤ L := by
+    intro x hx
+    obtain ⟨d, hd, _, ha⟩ := (mem_specAssetEntries defs x).mp hx
+    exact (hshort d hd).2.2 x.2 ha
+  apply distinct_filter_map_length eraseEntry
+  · intro x hx y hy hxy
+    obtain ⟨xe, ⟨⟨xi⟩, ⟨xx⟩⟩⟩ := x
+    obtain ⟨ye, ⟨⟨yi⟩, ⟨yx⟩⟩⟩ := y
+    have hx' := hsh _ hx
+    have hy' := hsh _ hy
+    simp only [eraseEntry, Asset.erase, ExchangeAsset.mk.injEq, Index.Asset.mk.injEq] at hxy
+    obtain ⟨h1, h2, h3⟩ := hxy
+    have e1 : xe = ye := toNat_inj h1
+    have e2 : xi = yi := code_inj _ _ hx'.1 hy'.1 h2
+    have e3 : xx = yx := code_inj _ _ hx'.2 hy'.2 h3
+    rw [e1, e2, e3]
+  · intro x hx
+    exact specKeyLt_code x.1 e x.2.nameInternal.name n.name (hsh x hx).1 hn
+
+/-- the `InstrumentIndex` `find_instrument_index` answers, as a function of the definitions: the
+number of distinct definitions whose (exchange, internal name) comes before the query. -/
+theorem lookup_instrument_index_value {defs : List SDef} {ii : Indexed} (h : buildS defs = some ii)
+    (hshort : ∀ d ∈ defs, d.Short) (e : ExchangeId) (n : InstrumentNameInternal)
+    (hn : n.name.length ≤ L) (i : Nat) (hf : findInstrumentIndexS ii e n = .ok i) :
+    i = specInstrumentIndex defs e n := by
+  have hrank := find_instrument_index_is_rank h _ _ i hf
+  rw [hrank]
+  unfold specInstruments specInstrumentIndex
+  apply distinct_filter_map_length toDef
+  · intro x hx y hy hxy
+    exact toDef_inj x y (hshort x hx) (hshort y hy) hxy
+  · intro x hx
+    exact specKeyLt_code x.exchange e x.nameInternal.name n.name (hshort x hx).1 hn
+
+/-- the values of the positional lookups `find_exchange` / `find_asset`: the entry at that position
+of the specification's table -/
+theorem positional_values {defs : List SDef} {ii : Indexed} (h : buildS defs = some ii)
+    (hshort : ∀ d ∈ defs, d.Short) (i : Nat) :
+    (∀ v, findExchange ii i = .ok v ↔ ((specExchangeTable defs)[i]?).map ExchangeId.toNat = some v) ∧
+    (∀ y, findAsset ii i = .ok y ↔ ((specAssetTable defs)[i]?).map eraseEntry = some y) := by
+  have hk : ∀ {α : Type} (l : List (Keyed Nat α)) (v : α),
+      (∀ (k : Nat) x, l[k]? = some x → x.key = k) →
+      (l[i]? = some ⟨i, v⟩ ↔ (l.map (·.value))[i]? = some v) := by
+    intro α l v hkey
+    rw [List.getElem?_map]
+    constructor
+    · intro hx; rw [hx]; rfl
+    · intro hx
+      obtain ⟨x, hx1, hx2⟩ := Option.map_eq_some_iff.mp hx
+      have := hkey i x hx1
+      rw [hx1]; cases x; simp_all
+  have hd := C11.dense h
+  constructor
+  · intro v
+    rw [find_exchange_ok_iff h, hk (exchanges ii) v hd.1, exchange_table_is_spec h, List.getElem?_map]
+  · intro y
+    rw [find_asset_ok_iff h, hk (assets ii) y hd.2.1, asset_table_is_spec h hshort, List.getElem?_map]
 
 /-! ## H. what `Display` prints for decimals and dates -/
 
@@ -767,6 +1108,39 @@ example : ∃ ii, buildS exDefs = some ii ∧
     cases hr : findExchangeIndex ii ExchangeId.okx.toNat with
     | ok i => exact absurd (h3.1.mp ⟨i, hr⟩) (by decide)
     | error x => rw [h3.2.1 x hr]
+/-- the specification's tables and index values on `exDefs`, and the builder model agreeing -/
+example : specExchangeTable exDefs = [.binanceSpot, .kraken] ∧
+    specAssetTable exDefs =
+      [(.binanceSpot, exBtc), (.binanceSpot, exUsdt), (.kraken, exBtc), (.kraken, exUsdt)] ∧
+    specAssetIndex exDefs .kraken (.new "BTC".toList) = 2 ∧
+    specInstrumentIndex exDefs .kraken (.new "btc_USDT".toList) = 2 ∧
+    specWFAssets exDefs = true := by decide +kernel
+example : ∃ ii, buildS exDefs = some ii ∧
+    findAssetIndexS ii .kraken (.new "BTC".toList) = .ok 2 ∧
+    findInstrumentIndexS ii .kraken (.new "btc_USDT".toList) = .ok 2 ∧
+    findExchangeIndex ii ExchangeId.kraken.toNat = .ok 1 := by
+  obtain ⟨ii, h⟩ := build_total exDefs
+  have hs : ∀ d ∈ exDefs, d.Short := by decide
+  refine ⟨ii, h, ?_, ?_, ?_⟩
+  · obtain ⟨i, hi⟩ := (lookup_asset_refines_spec h hs .kraken (.new "BTC".toList) (by decide)).1.mpr
+      (by decide)
+    rw [hi, lookup_asset_index_value h hs _ _ (by decide) i hi]
+    congr 1
+  · obtain ⟨i, hi⟩ := (lookup_instrument_refines_spec h hs .kraken (.new "btc_USDT".toList)
+      (by decide)).1.mpr (by decide)
+    rw [hi, lookup_instrument_index_value h hs _ _ (by decide) i hi]
+    congr 1
+  · obtain ⟨i, hi⟩ := (lookup_exchange_refines_spec h .kraken).1.mpr (by decide)
+    rw [hi, lookup_exchange_index_value h _ i hi]
+    congr 1
+/-- quote is checked before the settlement asset: with both unknown the error names the quote -/
+example : Names.Instrument.mapAssetKeyWithLookup
+    (fun a : Names.Asset => if a.nameInternal.name = "btc".toList then
+      (Except.ok a.nameExchange : Except AssetNameInternal AssetNameExchange) else .error a.nameInternal)
+    (Names.Instrument.new ExchangeId.kraken "x".toList "X".toList exBtc exUsdt 1
+      (.perpetual 1 (Asset.new "eth".toList "ETH".toList)) none) = .error ⟨"usdt".toList⟩ := by
+  rw [mapAssetKey_error_iff]
+  decide
 /-- the perpetual of `exDefs`: base is found, quote `usdt` is the first reference that is not -/
 example : Names.Instrument.mapAssetKeyWithLookup
     (fun a : Names.Asset => if a.nameInternal.name = "usdt".toList then
